@@ -2,6 +2,7 @@ import EaselModel.Core.Proto
 import EaselModel.Stats.Histogram
 import EaselModel.Stats.Fit
 import EaselModel.Stats.FitCG
+import EaselModel.Stats.Rootfinder
 /-! Line-protocol driver for the C11 model (histogram + maximum-likelihood fits) over `Float`. -/
 open EaselModel EaselModel.Proto EaselModel.Stats
 
@@ -64,6 +65,75 @@ def fitOut : FitRes Float → String
   | .fault => "fault"
   | .hang => "fault hang"
   | .res st ps => st.name ++ ps.foldl (fun acc p => acc ++ " " ++ fb p) ""
+
+
+def bitsList (xs : Array Float) : String := if xs.isEmpty then "-" else ",".intercalate (xs.toList.map fb)
+
+def minCfgOf (ws : List String) (n : Nat) : MinCfg Float :=
+  if (arg? ws "cfg").getD "null" != "create" then MinCfg.null else
+  let c : MinCfg Float := MinCfg.create n
+  let c := match argNat? ws "maxit" with | some k => { c with maxIter := k } | none => c
+  let c := match argNat? ws "brackmax" with | some k => { c with brackMaxIter := k } | none => c
+  let c := match argF ws "cgrtol" with | some v => { c with cgRtol := v } | none => c
+  let c := match argF ws "cgatol" with | some v => { c with cgAtol := v } | none => c
+  let c := match argF ws "brtol" with | some v => { c with brentRtol := v } | none => c
+  let c := match argF ws "batol" with | some v => { c with brentAtol := v } | none => c
+  let c := match argF ws "dstep" with | some v => { c with derivStep := v } | none => c
+  match arg? ws "u" with
+  | some us =>
+    let u := parseBitsList us
+    { c with u := some ((Array.range n).map fun i => if i < u.size then u[i]! else 1.0) }
+  | none => c
+
+def stepRoot (ws : List String) : String :=
+  let fam := (arg? ws "fam").getD ""
+  let c := parseBitsList ((arg? ws "c").getD "-")
+  let reps := min ((argNat? ws "reps").getD 1) 3
+  let cfg0 : RootCfg Float := if (arg? ws "meth") == some "newton" || (argNat? ws "fdf").getD 0 != 0 then RootCfg.defaultFDF else RootCfg.default
+  let cfg := match argF ws "abstol" with | some v => { cfg0 with absTol := v } | none => cfg0
+  let cfg := match argF ws "reltol" with | some v => { cfg with relTol := v } | none => cfg
+  let cfg := match argF ws "restol" with | some v => { cfg with residTol := v } | none => cfg
+  let cfg := match argInt? ws "maxit" with | some v => { cfg with maxIter := v } | none => cfg
+  match rootFamily fam c, arg? ws "meth" with
+  | some fdf, some "bis" =>
+    let xl := (argF ws "xl").getD 0.0; let xr := (argF ws "xr").getD 0.0
+    let (_, parts) := (List.range reps).foldl (fun (acc : Int × List String) _ =>
+      let r := rootBisection cfg (fun x => (fdf x).1) acc.1 xl xr
+      (r.iter, acc.2 ++ [s!"{r.st.name} x={fb r.x} iter={r.iter} xl={fb r.xl} xr={fb r.xr}"])) (0, [])
+    " | ".intercalate parts
+  | some fdf, some "newton" =>
+    let g := (argF ws "guess").getD 0.0
+    let (_, _, parts) := (List.range reps).foldl (fun (acc : Int × Float × List String) _ =>
+      let r := rootNewton cfg fdf acc.1 acc.2.1 g
+      (r.iter, r.xl, acc.2.2 ++ [s!"{r.st.name} x={fb r.x} iter={r.iter} x0={fb r.xl}"])) (0, 0.0, [])
+    " | ".intercalate parts
+  | _, _ => "bad-op"
+
+def stepMin (ws : List String) (op : String) : String :=
+  let p := parseBitsList ((arg? ws "p").getD "-")
+  let x0 := parseBitsList ((arg? ws (if op == "cgd" then "x0" else "ori")).getD "-")
+  match objFamily (α := Float) ((arg? ws "fam").getD "") p with
+  | none => "bad-op"
+  | some (f, g) =>
+    if x0.size < 1 then "bad-op" else
+    let cfg := minCfgOf ws x0.size
+    if op == "cgd" then
+      let df := if (argNat? ws "grad").getD 0 != 0 then g else none
+      match (cgd cfg f df x0).1 with
+      | .hang => "fault hang"
+      | .res st x fx => s!"{st.name} fx={fb fx} x=" ++ (if st == .ok || st == .enohalt then bitsList x else "-")
+    else
+      let d := parseBitsList ((arg? ws "d").getD "-")
+      if d.size != x0.size then "bad-op" else
+      let fline (t : Float) : Float := f (pointAt x0 d t)
+      if op == "bracket" then
+        match bracketCG cfg fline (f x0) ((argF ws "first").getD 0.0) with
+        | none => "enoresult"
+        | some b => s!"ok ax={fb b.ax} bx={fb b.bx} cx={fb b.cx} fa={fb b.fa} fb={fb b.fb} fc={fb b.fc}"
+      else
+        match brentCG cfg fline ((argF ws "a").getD 0.0) ((argF ws "b").getD 0.0) with
+        | none => "fault hang"
+        | some (x, fx) => s!"ok x={fb x} fx={fb fx}"
 
 def stepH (s : S) (ws : List String) (h : Hist Float) : S × String :=
   match ws with
@@ -147,6 +217,10 @@ def step (s : S) (line : String) : S × String :=
       | .val (some h) => ({ s with h := some h }, s!"ok nb={h.nb}")
     | _, _, _ => (s, "bad-op")
   | "sample" :: _ => (s, "unmodelled")
+  | "root" :: _ => (s, stepRoot ws)
+  | "cgd" :: _ => (s, stepMin ws "cgd")
+  | "bracket" :: _ => (s, stepMin ws "bracket")
+  | "brent" :: _ => (s, stepMin ws "brent")
   | "data" :: _ =>
     let xs := parseBitsList ((arg? ws "xs").getD "-")
     ({ s with xs := xs }, s!"ok n={xs.size}")
